@@ -33,7 +33,7 @@ func loadEngine(tier string) (*Engine, error) {
 	if err != nil {
 		return nil, err
 	}
-	e := &Engine{pkgs: map[string]*packages.Package{}, allPkgs: map[string]*packages.Package{}, heapSorts: map[string]string{}, tagNames: map[string]bool{}, cs: newContractSet(), tier: tier}
+	e := &Engine{pkgs: map[string]*packages.Package{}, allPkgs: map[string]*packages.Package{}, heapSorts: map[string]string{}, heapIsRef: map[string]bool{}, tagNames: map[string]bool{}, cs: newContractSet(), tier: tier}
 	nerr := 0
 	for _, p := range pkgs {
 		for _, er := range p.Errors {
